@@ -20,5 +20,4 @@ pub broadcast proof fn lemma_mod_range(a: int, c: int)
     vstd::arithmetic::div_mod::lemma_mod_bound(a, c);
 }
 }
-broadcast use {lemmas::lemma_ring_distinct, lemmas::lemma_mod_range};
 // ---- end prelude/ring_lemmas.rs ----
